@@ -236,12 +236,15 @@ Fixpoint last_token_path (t : tree) : option (list nat) :=
   match t with
   | Tok _ _ => Some []
   | Node _ cs =>
-    (fix go (l : list tree) (i : nat) : option (list nat) :=
-       match l with
-       | [] => None
-       | [x] => match last_token_path x with Some p => Some (i :: p) | None => None end
-       | _ :: r => go r (S i)
-       end) cs 0
+    match (fix go (l : list tree) : option (list nat) :=
+             match l with
+             | [] => None
+             | [x] => last_token_path x
+             | _ :: r => go r
+             end) cs with
+    | Some p => Some ((length cs - 1) :: p)
+    | None => None
+    end
   end.
 Definition newline_line : tree := Node EMPTY_LINE [Tok NEWLINE [10%N]].
 (* fn ensure_trailing_newline(node): the new NEWLINE token is the first token of a new
